@@ -108,6 +108,12 @@ public:
 
   ~simproxy() override
   {
+    // delete the module while this (derived) proxy is still alive, so that messages raised during
+    // teardown reach our log()/error() instead of the base-class implementations (which print to stdout)
+    if (colvars != NULL) {
+      delete colvars;
+      colvars = NULL;
+    }
     // colvars and script are deleted by the base-class destructor chain? No:
     // the base class deletes "colvars" if non-null (see colvarproxy::~colvarproxy)
   }
